@@ -27,6 +27,18 @@ add("C02", "property-based testing with a validity-predicate oracle + exhaustive
     "Bounded by N<=2e4 (quick) / 2e5 (thorough); the predicates are typed from the property text, not from the scheduler code.",
     "DESIGN.md section 6 C02")
 
+add("C03", "property-based testing with exact (ulp-level) relational oracles + exhaustive small-scope enumeration + differential lpsd vs ltf",
+    "The DFT constraint, the stepping rule, the start frequency, the bin-number identities and the bmin lower bound are "
+    "checked bin by bin to a few ulp on generated and exhaustively enumerated configurations; lpsd is compared array-for-array with ltf(bmin=1,Lmin=1).",
+    "Bounded exploration; the b>=bmin bound is derived from L=round(fs*bmin/f) (and the lookup-grid spacing for the vectorised scheduler).",
+    "DESIGN.md section 6 C03")
+add("C04", "property-based testing with closed-form validity predicates (K*, ideal starts, realised overlap, log-region law) + differential vectorised vs iterative + search round-trip",
+    "Monotonicity, the log-spacing law in the unclamped region, the averaging formula with the N-L+1 cap, even spreading of starts, the realised overlap, "
+    "the 10% bin-count agreement and the forced-bin-count contract are executable predicates over generated configurations (a dedicated generator "
+    "guarantees >=300 plans with a sizeable log region per quick run).",
+    "Either tie rule is accepted for rounding K; forced-count searches limited to N<=3000; the vectorised scheduler's forced search only in the thorough tier (cost).",
+    "DESIGN.md section 6 C04")
+
 MANIFEST = {
     "version": 1,
     "setup_cmd": "/venv/bin/python -m harness.setup",
@@ -51,7 +63,7 @@ MANIFEST = {
 
 ALL = ["C%02d" % i for i in range(1, 21)]
 for pid in ALL:
-    if pid in CHECKS:
+    if pid in CHECKS and os.path.exists(os.path.join(HERE, "harness", "props", pid.lower() + ".py")):
         tech, text, note, ref = CHECKS[pid]
         MANIFEST["checks"].append({
             "property_id": pid,
